@@ -4,6 +4,7 @@ import sys
 from functools import partial
 from io import BytesIO
 from typing import Callable, List, Optional, Tuple
+from urllib.parse import unquote, unquote_to_bytes
 
 from .typing import (
     ASGIFramework,
@@ -147,19 +148,25 @@ class WSGIWrapper:
 
 def _build_environ(scope: HTTPScope, body: bytes) -> dict:
     server = scope.get("server") or ("localhost", 80)
-    path = scope["path"]
-    script_name = scope.get("root_path", "")
-    if path == script_name or path.startswith(script_name + "/"):
+    # The octets of the path, an escape need not be UTF-8 (which the
+    # decoded path of the scope cannot represent)
+    path = scope["path"].encode("utf8")
+    raw_path = scope.get("raw_path")
+    if raw_path is not None and unquote(raw_path.decode("latin1")) == scope["path"]:
+        # (unless a middleware has changed the path, e.g. for a mount)
+        path = unquote_to_bytes(raw_path)
+    script_name = scope.get("root_path", "").encode("utf8")
+    if path == script_name or path.startswith(script_name + b"/"):
         # Under the root path, i.e. it is a prefix at a segment boundary
         path = path[len(script_name) :]
-        path = path if path != "" else "/"
+        path = path if path != b"" else b"/"
     else:
         raise InvalidPathError()
 
     environ = {
         "REQUEST_METHOD": scope["method"],
-        "SCRIPT_NAME": script_name.encode("utf8").decode("latin1"),
-        "PATH_INFO": path.encode("utf8").decode("latin1"),
+        "SCRIPT_NAME": script_name.decode("latin1"),
+        "PATH_INFO": path.decode("latin1"),
         "QUERY_STRING": scope["query_string"].decode("ascii"),
         "SERVER_NAME": server[0],
         "SERVER_PORT": server[1],
